@@ -4,7 +4,7 @@
    failure, a refused thread start. *)
 From Coq Require Import Lia.
 From Coq Require Import Permutation.
-From Torf Require Import Base Pipeline PipelineProofs FlowProofs ThreadProofs DeadlockProofs ConservationProofs ReaderDoneProofs DrainProofs VerifyTrueProofs VerifyFalseProofs CompleteProofs PipeExplore PipeExploreProofs PipeConfigs.
+From Torf Require Import Base Pipeline PipelineProofs FlowProofs ThreadProofs DeadlockProofs ConservationProofs ReaderDoneProofs DrainProofs VerifyTrueProofs VerifyFalseProofs CompleteProofs ExceptionProofs PipeExplore PipeExploreProofs PipeConfigs.
 Open Scope Z_scope.
 
 (* the callback cancels from the second piece on (3 pieces): under every schedule the call returns
@@ -87,6 +87,29 @@ Theorem C04_generate_false_means_stopped : forall c s hs,
   s_result s = Some ResFalse -> s_stop s = true.
 Proof. exact generate_false_means_stopped. Qed.
 Print Assumptions C04_generate_false_means_stopped.
+
+(* UNBOUNDED, "an exception only for the right reason": whatever a call raises is the exception the user's callback
+   raised (-1), the content error of a verification (1000, verification only), an exception carried by an item of
+   the content, the read error the content iterator raised, or the read error of the out-of-memory handler
+   (ENOMEM = 12) -- under every schedule, hasher count, callback plan and clock.  The collector's internal
+   assertion (-2) is not among them: it is unreachable.  [just] is defined in proofs/ExceptionProofs.v. *)
+Theorem C04_exception_only_for_a_reason : forall c s e,
+  reach c s -> s_result s = Some (ResRaise e) -> just c e.
+Proof. exact exception_only_for_a_reason. Qed.
+Print Assumptions C04_exception_only_for_a_reason.
+
+(* hashing readable content without a callback raises nothing but an error of the reader (iterator failure, ENOMEM) *)
+Theorem C04_generate_raises_only_reader_errors : forall c s e hs,
+  reach c s -> cf_verify c = None -> cf_plan c = CbAbsent -> yielded (cf_items c) = map RPiece hs ->
+  s_result s = Some (ResRaise e) -> e = -1 \/ okr c e.
+Proof. exact generate_raises_only_reader_errors. Qed.
+Print Assumptions C04_generate_raises_only_reader_errors.
+
+(* non-vacuity: the iterator fails with error 5 after two pieces: the call raises 5, and 5 is an iterator failure of the content *)
+Example C04_exception_example :
+  let s := auto_run 300 G_readfail (init G_readfail) in
+  reach G_readfail s /\ s_result s = Some (ResRaise 5) /\ In (RFail 5) (cf_items G_readfail).
+Proof. split; [apply auto_run_reach; constructor|vm_compute; split; [reflexivity|auto]]. Qed.
 
 (* non-vacuity: 40 pieces, one hasher, a callback that cancels at its first call: False, and the stop flag is set *)
 Example C04_false_when_stopped_example :
